@@ -120,13 +120,30 @@ def check(run):
                                    {"p": list(b"s/add.bin"), "c": [[9, ln]]}, {"p": list(b"keep"), "c": [[5, 3]]}]}
         cases.append(Case([{"op": "patch.create", "case": base, "a": a, "b": b}], desc={"size-sweep": ln}))
         base += 1
+    # deterministic shapes the exhaustive model is too small for: a file that shrinks or grows in place (block multiples on
+    # both sides), sizes that are exact multiples of the 16000-byte block payload, and the same file name in several
+    # directories with one of the twins removed / added / changed
+    for (s0, s1) in [(300, 120), (120, 300), (129, 128), (128, 127), (16001, 16000), (16000, 15999), (32000, 16000), (16000, 32000),
+                     (48000, 1), (1, 48000), (257, 1), (144, 143)]:
+        a = {"dirs": [], "files": [{"p": list(b"d/resize.bin"), "c": [[3, s0]]}, {"p": list(b"keep"), "c": [[5, 3]]}]}
+        b = {"dirs": [], "files": [{"p": list(b"d/resize.bin"), "c": [[4, s1]]}, {"p": list(b"keep"), "c": [[5, 3]]}]}
+        cases.append(Case([{"op": "patch.create", "case": base, "a": a, "b": b}], desc={"resize": [s0, s1]}))
+        base += 1
+    twin = lambda d, c: {"p": list(("%s/readme.txt" % d).encode()), "c": c}
+    for (ta, tb) in [([("common", 1), ("ex1", 2)], [("common", 1)]), ([("common", 1)], [("common", 1), ("ex1", 2)]),
+                     ([("common", 1), ("ex1", 1)], [("common", 1), ("ex1", 2)]), ([("a/b", 1), ("a", 1), ("b", 1)], [("a", 1)]),
+                     ([("x", 1), ("y", 2), ("z", 3)], [("y", 2)]), ([("x", 1)], [("y", 1)])]:
+        a = {"dirs": [], "files": [twin(d, [[c, 40]]) for d, c in ta]}
+        b = {"dirs": [], "files": [twin(d, [[c, 40]]) for d, c in tb]}
+        cases.append(Case([{"op": "patch.create", "case": base, "a": a, "b": b}], desc={"same name in several directories": [ta, tb]}))
+        base += 1
     nr = 150 if run.tier == "quick" else 1500
     for i in range(nr):
         a, b = random_pair(rng, run.tier == "thorough" and i % 10 == 0)
         cases.append(Case([{"op": "patch.create", "case": base + i, "a": a, "b": b}],
                           desc={"random pair": [len(a["files"]), len(b["files"])]}))
     run.rule = ("every pair of trees over 4 paths (nesting 0..2) with per-path content absent/empty/c1(/c2) enumerated by TLC "
-                "(quick: 3 paths, 4096 pairs; thorough: 4 paths, 65536 pairs; contents absent/empty/c/c' with |c| = |c'|), a size sweep 1..300 (added + same-size change) plus seeded random pairs (nesting 0..4, 1..40 files, sizes clustered at "
+                "(quick: 3 paths, 4096 pairs; thorough: 4 paths, 65536 pairs; contents absent/empty/c/c' with |c| = |c'|), a size sweep 1..300 (added + same-size change), files resized in place across block multiples (12 pairs incl. 16000 / 32000 / 48000), one file name in several directories with a twin removed / added / changed, plus seeded random pairs (nesting 0..4, 1..40 files, sizes clustered at "
                 "127/128/129, 143/144, 31999/32000/32001, 65535/65536, thorough up to 400 KB); each case: real create, independent "
                 "decode, real apply on a copy; distinct by trees, non-trivial when both trees have files")
     run.exhaustive = True
